@@ -15,6 +15,8 @@ import (
 )
 
 type Engine struct {
+	acqMemo      map[*ssa.Function][]acqEntry // lock acquisition summaries (extras.go)
+	acqBusy      map[*ssa.Function]bool
 	globalStores map[*ssa.Global]bool // globals stored to outside package initialisers
 	prog         *ssa.Program
 	pkgs         map[string]*ssa.Package // by path
@@ -145,7 +147,7 @@ func isBool(t types.Type) bool {
 
 // opaqueStruct: struct types outside the repository are opaque values.
 // transparentExtern: library structs whose fields the repository reads and writes directly.
-var transparentExtern = map[string]bool{"container/ring.Ring": true}
+var transparentExtern = map[string]bool{"container/ring.Ring": true, "go.uber.org/zap/zaptest/observer.LoggedEntry": true}
 
 func (e *Engine) opaqueStruct(t types.Type) bool {
 	if t != nil {
